@@ -904,13 +904,19 @@ func (h *hist) run() {
 		case "allocate":
 			h.opAllocate()
 		case "refresh":
+			h.m.LoseNextResponse = h.rng.Intn(8) == 0
 			h.opRefresh()
+			h.m.LoseNextResponse = false
 		case "refresh0":
 			h.opRefresh0()
 		case "perm":
+			h.m.LoseNextResponse = h.rng.Intn(8) == 0
 			h.opCreatePerm()
+			h.m.LoseNextResponse = false
 		case "chan":
+			h.m.LoseNextResponse = h.rng.Intn(6) == 0
 			h.opChanBind()
+			h.m.LoseNextResponse = false
 		case "data":
 			h.dataStep(1 + h.rng.Intn(6))
 		case "probe":
